@@ -34,7 +34,7 @@ DTYPES = ["uint8", "int8", "bool", "uint16", "int16", "uint32", "int32", "float3
 
 @st.composite
 def s_case(draw):
-    res = draw(st.sampled_from([10.0, 30.0, 0.5, 2.0, 100.0]))
+    res = draw(st.sampled_from([10.0, 30.0, 0.5, 2.0, 100.0, 0.25, 16.0]))
     flipy = draw(st.sampled_from([-1, -1, 1]))
     flipx = draw(st.sampled_from([1, 1, -1]))
     tx = float(draw(st.integers(-1000, 1000))) * res + draw(st.sampled_from([0.0, 0.0, 3.25]))
@@ -42,7 +42,7 @@ def s_case(draw):
     src_aff = [flipx * res, 0.0, tx + 5.0, 0.0, flipy * res, ty + 5.0]  # +5: never the identity geotransform
     Hs, Ws = draw(st.integers(1, 40)), draw(st.integers(1, 40))
     Hd, Wd = draw(st.integers(1, 40)), draw(st.integers(1, 40))
-    ttol = draw(st.sampled_from([0.05, 0.05, 0.01, 0.2]))
+    ttol = draw(st.sampled_from([0.05, 0.05, 0.01, 0.2, 0.25, 0.125]))
     stol = draw(st.sampled_from([1e-3, 1e-3, 1e-5, 1e-2]))
     klass = draw(st.sampled_from(["shift_int", "shift_int", "shift_sub", "shift_sub", "scale_int", "scale_int", "scale_near", "scale_frac", "scale_aniso", "rot"]))
     if klass == "rot":
@@ -236,5 +236,73 @@ def o_paste(case, T):
         T.cls("mirrored")
 
 
+# --------------------------------------------------------------------------- different CRSs never paste
+# (a, b, centre x range, centre y range, pixel sizes): the same numbers are valid coordinates in both CRSs
+XCRS = [
+    ("EPSG:32633", "EPSG:32634", (3.0e5, 7.0e5), (1.0e6, 8.0e6), [10.0, 30.0, 100.0]),
+    ("EPSG:32633", "EPSG:32733", (3.0e5, 7.0e5), (2.0e6, 8.0e6), [10.0, 20.0]),
+    ("EPSG:32755", "EPSG:32633", (3.0e5, 7.0e5), (2.0e6, 8.0e6), [10.0, 60.0]),
+    ("EPSG:3857", "EPSG:6933", (-1.5e7, 1.5e7), (-6.0e6, 6.0e6), [500.0, 1000.0]),
+    ("EPSG:6933", "EPSG:3857", (-1.5e7, 1.5e7), (-6.0e6, 6.0e6), [500.0, 9000.0]),
+    ("EPSG:4326", "EPSG:4283", (115.0, 150.0), (-40.0, -12.0), [0.01, 0.00025]),
+    ("EPSG:4283", "EPSG:4326", (115.0, 150.0), (-40.0, -12.0), [0.01, 0.1]),
+]
+
+
+@st.composite
+def s_xcrs(draw):
+    k = draw(st.integers(0, len(XCRS) - 1))
+    a, b, xr, yr, ress = XCRS[k]
+    res = draw(st.sampled_from(ress))
+    cx = float(round(draw(st.floats(*xr)) / res)) * res
+    cy = float(round(draw(st.floats(*yr)) / res)) * res
+    Hs, Ws = draw(st.integers(1, 64)), draw(st.integers(1, 64))
+    same_shape = draw(st.sampled_from([True, True, False]))
+    Hd, Wd = (Hs, Ws) if same_shape else (draw(st.integers(1, 64)), draw(st.integers(1, 64)))
+    rel = draw(st.sampled_from(["identical", "identical", "shift_int", "scale_int", "mirror"]))
+    if rel == "identical":
+        Tm = [1.0, 0.0, 0.0, 0.0, 1.0, 0.0]
+    elif rel == "shift_int":
+        Tm = [1.0, 0.0, float(draw(st.integers(-5, 5))), 0.0, 1.0, float(draw(st.integers(-5, 5)))]
+    elif rel == "scale_int":
+        kk = float(draw(st.sampled_from([2, 3, 4])))
+        Tm = [kk, 0.0, float(draw(st.integers(-2, 2))) * kk, 0.0, kk, float(draw(st.integers(-2, 2))) * kk]
+    else:
+        Tm = [1.0, 0.0, 0.0, 0.0, -1.0, float(Hs)]
+    return {"pair": k, "res": res, "centre": [cx, cy], "sshape": [Hs, Ws], "dshape": [Hd, Wd], "T": Tm, "rel": rel,
+            "opts": draw(st.sampled_from([{}, {}, {"padding": 0}, {"align": 0}, {"padding": 1}, {"ttol": 0.2, "stol": 1e-2}]))}
+
+
+def o_xcrs(case, T):
+    """'paste-ability is reported only for same-CRS grids': grids whose *numbers* (shape, affine) are identical or
+    integer related but whose CRSs differ (neighbouring UTM zones share origins and pixel sizes) must never paste."""
+    from affine import Affine
+
+    from odc.geo.geobox import GeoBox
+    from odc.geo.overlap import compute_reproject_roi
+
+    a, b, _, _, _ = XCRS[case["pair"]]
+    res = case["res"]
+    Hs, Ws = case["sshape"]
+    cx, cy = case["centre"]
+    A = Affine(res, 0, cx - res * (Ws // 2), 0, -res, cy + res * (Hs // 2))
+    src = GeoBox((Hs, Ws), A, a)
+    dst = GeoBox(tuple(case["dshape"]), A * mk_affine(case["T"]), b)
+    require(src.crs != dst.crs, "harness: %s == %s", a, b)
+    info = compute_reproject_roi(src, dst, **case["opts"])
+    T.cls("rel:" + case["rel"])
+    T.cls("pair:%s->%s" % (a.split(":")[1], b.split(":")[1]))
+    if src.shape == dst.shape and case["rel"] == "identical":
+        T.cls("same_shape_and_affine")
+    T.nontrivial((case["pair"], case["rel"], tuple(sorted(case["opts"]))))
+    require(not info.paste_ok, "paste_ok reported for grids in different CRSs (%s -> %s, relation of the numbers: %s, options %r): roi_src=%r roi_dst=%r",
+            a, b, case["rel"], case["opts"], info.roi_src, info.roi_dst)
+    require(isinstance(info.read_shrink, int) and info.read_shrink >= 1, "read_shrink %r", info.read_shrink)
+    (sy, sx), (dy, dx) = info.roi_src, info.roi_dst
+    require(0 <= dy.start <= dy.stop <= dst.shape[0] and 0 <= dx.start <= dx.stop <= dst.shape[1], "roi_dst %r outside the destination %r", info.roi_dst, tuple(dst.shape))
+    require(0 <= sy.start and 0 <= sx.start, "roi_src %r starts outside the source", info.roi_src)
+
+
 def build(chk: Check) -> None:
+    chk.sub("other_crs_never_pastes", o_xcrs, strategy=s_xcrs(), n={"quick": 1200, "thorough": 40000})
     chk.sub("paste", o_paste, cov={"quick": 1500, "thorough": 100000}, strategy=s_case(), n={"quick": 12000, "thorough": 250000}, shrink=True)
